@@ -301,9 +301,10 @@ double Interpolation::Local_Minimum(double x_1, double x_2)
 		return std::min(f_left, f_right);
 	else
 	{
-		// Find the smallest value of function_values between i_1+1 and i_2.
-		double min_entry = *std::min_element(function_values.begin() + i_1 + 1, function_values.begin() + i_2);
-		return std::min({f_left, min_entry, f_right});
+		// Find the smallest value the curve takes at the knots i_1+1,...,i_2 (the prefactor may be negative).
+		double min_entry = prefactor * *std::min_element(function_values.begin() + i_1 + 1, function_values.begin() + i_2 + 1);
+		double max_entry = prefactor * *std::max_element(function_values.begin() + i_1 + 1, function_values.begin() + i_2 + 1);
+		return std::min({f_left, min_entry, max_entry, f_right});
 	}
 }
 
@@ -318,20 +319,25 @@ double Interpolation::Local_Maximum(double x_1, double x_2)
 		return std::max(f_left, f_right);
 	else
 	{
-		// Find the largest value of function_values between i_1+1 and i_2.
-		double max_entry = *std::max_element(function_values.begin() + i_1 + 1, function_values.begin() + i_2);
-		return std::max({f_left, max_entry, f_right});
+		// Find the largest value the curve takes at the knots i_1+1,...,i_2 (the prefactor may be negative).
+		double min_entry = prefactor * *std::min_element(function_values.begin() + i_1 + 1, function_values.begin() + i_2 + 1);
+		double max_entry = prefactor * *std::max_element(function_values.begin() + i_1 + 1, function_values.begin() + i_2 + 1);
+		return std::max({f_left, min_entry, max_entry, f_right});
 	}
 }
 
 double Interpolation::Global_Minimum()
 {
-	return *std::min_element(function_values.begin(), function_values.end());
+	double min_entry = prefactor * *std::min_element(function_values.begin(), function_values.end());
+	double max_entry = prefactor * *std::max_element(function_values.begin(), function_values.end());
+	return std::min(min_entry, max_entry);
 }
 
 double Interpolation::Global_Maximum()
 {
-	return *std::max_element(function_values.begin(), function_values.end());
+	double min_entry = prefactor * *std::min_element(function_values.begin(), function_values.end());
+	double max_entry = prefactor * *std::max_element(function_values.begin(), function_values.end());
+	return std::max(min_entry, max_entry);
 }
 
 void Interpolation::Save_Function(std::string filename, unsigned int points)
@@ -461,17 +467,27 @@ void Interpolation_2D::Multiply(double factor)
 // Function properties
 double Interpolation_2D::Global_Minimum()
 {
-	std::vector<double> row_minima;
+	std::vector<double> row_minima, row_maxima;
 	for(auto& row : function_values)
+	{
 		row_minima.push_back(*std::min_element(row.begin(), row.end()));
-	return *std::min_element(row_minima.begin(), row_minima.end());
+		row_maxima.push_back(*std::max_element(row.begin(), row.end()));
+	}
+	double min_entry = prefactor * *std::min_element(row_minima.begin(), row_minima.end());
+	double max_entry = prefactor * *std::max_element(row_maxima.begin(), row_maxima.end());
+	return std::min(min_entry, max_entry);
 }
 double Interpolation_2D::Global_Maximum()
 {
-	std::vector<double> row_maxima;
+	std::vector<double> row_minima, row_maxima;
 	for(auto& row : function_values)
+	{
+		row_minima.push_back(*std::min_element(row.begin(), row.end()));
 		row_maxima.push_back(*std::max_element(row.begin(), row.end()));
-	return *std::max_element(row_maxima.begin(), row_maxima.end());
+	}
+	double min_entry = prefactor * *std::min_element(row_minima.begin(), row_minima.end());
+	double max_entry = prefactor * *std::max_element(row_maxima.begin(), row_maxima.end());
+	return std::max(min_entry, max_entry);
 }
 
 void Interpolation_2D::Save_Function(std::string filename, unsigned int x_points, unsigned int y_points)
